@@ -117,6 +117,8 @@ pub enum Tr {
     Mark(i32),
     /// Recorded immediately before `context.fail(..)` is executed.
     Failing,
+    /// Recorded immediately before `context.stop()` is executed.
+    Stopping,
 }
 
 impl Tr {
@@ -135,6 +137,7 @@ impl Tr {
             Tr::Observe { .. } => "Observe".into(),
             Tr::Mark(_) => "Mark".into(),
             Tr::Failing => "Failing".into(),
+            Tr::Stopping => "Stopping".into(),
         }
     }
 }
@@ -341,6 +344,15 @@ macro_rules! def_build {
                         .effect(move || push(&t, Tr::Failing))
                         .followed_by(context.fail::<(), ProgFail>(ProgFail))
                         .$boxm()
+                }
+                Prog::AndThen { first, body } => {
+                    let first_h = $build(context, first, trace);
+                    let body_h = $build(context, body, trace);
+                    first_h.and_then(move |_: ()| body_h).$boxm()
+                }
+                Prog::Stop => {
+                    let t = trace.clone();
+                    context.effect(move || push(&t, Tr::Stopping)).followed_by(context.stop()).$boxm()
                 }
             }
         }
